@@ -748,7 +748,7 @@ func (r *Remote) addReferencesToUpdate(
 
 	for _, rs := range refspecs {
 		if rs.IsDelete() {
-			if err := r.deleteReferences(rs, remoteRefs, refsDict, cmds, false); err != nil {
+			if err := r.deleteReferences(rs, remoteRefs, refsDict, cmds, false, forceWithLease); err != nil {
 				return err
 			}
 		} else {
@@ -758,7 +758,7 @@ func (r *Remote) addReferencesToUpdate(
 			}
 
 			if prune {
-				if err := r.deleteReferences(rs, remoteRefs, refsDict, cmds, true); err != nil {
+				if err := r.deleteReferences(rs, remoteRefs, refsDict, cmds, true, forceWithLease); err != nil {
 					return err
 				}
 			}
@@ -783,7 +783,7 @@ func (r *Remote) addOrUpdateReferences(
 		if !ok {
 			object, err := object.GetObject(r.s, plumbing.NewHash(rs.Src()))
 			if err == nil {
-				return r.addObject(rs, remoteRefs, object.ID(), cmds)
+				return r.addObject(rs, remoteRefs, object.ID(), cmds, forceWithLease)
 			}
 			return nil
 		}
@@ -806,6 +806,7 @@ func (r *Remote) deleteReferences(rs config.RefSpec,
 	refsDict map[string]*plumbing.Reference,
 	cmds *[]*packp.Command,
 	prune bool,
+	forceWithLease *ForceWithLease,
 ) error {
 	iter, err := remoteRefs.IterReferences()
 	if err != nil {
@@ -835,6 +836,9 @@ func (r *Remote) deleteReferences(rs config.RefSpec,
 			Old:  ref.Hash(),
 			New:  plumbing.ZeroHash,
 		}
+		if _, err := r.checkForceWithLease(cmd.Name, cmd, forceWithLease); err != nil {
+			return err
+		}
 		*cmds = append(*cmds, cmd)
 		return nil
 	})
@@ -842,7 +846,7 @@ func (r *Remote) deleteReferences(rs config.RefSpec,
 
 func (r *Remote) addObject(rs config.RefSpec,
 	remoteRefs storer.ReferenceStorer, localObject plumbing.Hash,
-	cmds *[]*packp.Command,
+	cmds *[]*packp.Command, forceWithLease *ForceWithLease,
 ) error {
 	if rs.IsWildcard() {
 		return errors.New("can't use wildcard together with hash refspecs")
@@ -867,7 +871,11 @@ func (r *Remote) addObject(rs config.RefSpec,
 	if cmd.Old == cmd.New {
 		return nil
 	}
-	if !rs.IsForceUpdate() {
+	leased, err := r.checkForceWithLease(cmd.Name, cmd, forceWithLease)
+	if err != nil {
+		return err
+	}
+	if !leased && !rs.IsForceUpdate() {
 		if err := checkTagUpdate(cmd); err != nil {
 			return err
 		}
@@ -914,7 +922,7 @@ func (r *Remote) addReferenceIfRefSpecMatches(rs config.RefSpec,
 		return nil
 	}
 
-	leased, err := r.checkForceWithLease(localRef, cmd, forceWithLease)
+	leased, err := r.checkForceWithLease(localRef.Name(), cmd, forceWithLease)
 	if err != nil {
 		return err
 	}
@@ -936,29 +944,29 @@ func (r *Remote) addReferenceIfRefSpecMatches(rs config.RefSpec,
 
 // checkForceWithLease reports whether cmd is protected by the lease, and
 // fails if it is and the remote value is not the expected one.
-func (r *Remote) checkForceWithLease(localRef *plumbing.Reference, cmd *packp.Command, forceWithLease *ForceWithLease) (bool, error) {
+func (r *Remote) checkForceWithLease(name plumbing.ReferenceName, cmd *packp.Command, forceWithLease *ForceWithLease) (bool, error) {
 	if forceWithLease == nil {
 		return false, nil
-	}
-
-	remotePrefix := fmt.Sprintf("refs/remotes/%s/", r.Config().Name)
-
-	ref, err := storer.ResolveReference(
-		r.s,
-		plumbing.ReferenceName(remotePrefix+strings.ReplaceAll(localRef.Name().String(), "refs/heads/", "")),
-	)
-	if err != nil {
-		return false, err
 	}
 
 	if forceWithLease.RefName.String() != "" && forceWithLease.RefName != cmd.Name {
 		return false, nil
 	}
 
-	expectedOID := ref.Hash()
+	expectedOID := forceWithLease.Hash
 
-	if !forceWithLease.Hash.IsZero() {
-		expectedOID = forceWithLease.Hash
+	if expectedOID.IsZero() {
+		remotePrefix := fmt.Sprintf("refs/remotes/%s/", r.Config().Name)
+
+		ref, err := storer.ResolveReference(
+			r.s,
+			plumbing.ReferenceName(remotePrefix+strings.ReplaceAll(name.String(), "refs/heads/", "")),
+		)
+		if err != nil {
+			return false, err
+		}
+
+		expectedOID = ref.Hash()
 	}
 
 	if cmd.Old != expectedOID {
